@@ -461,6 +461,329 @@ fn vtuples<W: Write>(r: &mut Rng, n: usize, out: &mut W) -> usize {
     cnt
 }
 
+
+// ---------------------------------------------------------------- range texts from syntax trees
+// The tree is emitted in exactly the record shape of spec/RangeSyntax.tla; the text is rendered
+// here and re-rendered by the specification (a mismatch is a tool error, not a verdict).
+
+#[derive(Clone)]
+pub struct PartialAst {
+    v: bool,
+    comps: [Value; 3],
+    nums: [Option<u64>; 3],
+    pre: Vec<String>,
+    bld: Vec<String>,
+    nohy: bool,
+}
+
+fn comp_json(r: &mut Rng, n: u64, zeros: bool) -> (Value, String) {
+    let mut s = n.to_string();
+    if zeros && r.chance(1, 2) {
+        s = format!("0{}", s);
+    }
+    (json!({"t":"n","d":s.bytes().map(|b| (b - b'0') as u64).collect::<Vec<_>>()}), s)
+}
+
+fn raw_ident(r: &mut Rng) -> String {
+    match r.below(12) {
+        0 | 1 => r.below(3).to_string(),
+        2 => r.below(40).to_string(),
+        3 => format!("0{}", r.below(10)),
+        4 => match r.below(3) {
+            0 => u64::MAX.to_string(),
+            1 => "18446744073709551616".to_string(),
+            _ => (MAX_SAFE_INTEGER + 1).to_string(),
+        },
+        _ => r.pick(ALNUM).to_string(),
+    }
+}
+
+impl PartialAst {
+    fn render(&self, texts: &[String; 3]) -> String {
+        let mut s = String::new();
+        if self.v {
+            s.push('v');
+        }
+        s.push_str(&texts[0]);
+        if self.comps[1]["t"] != "abs" {
+            s.push('.');
+            s.push_str(&texts[1]);
+            if self.comps[2]["t"] != "abs" {
+                s.push('.');
+                s.push_str(&texts[2]);
+                if !self.pre.is_empty() {
+                    if !self.nohy {
+                        s.push('-');
+                    }
+                    s.push_str(&self.pre.join("."));
+                }
+                if !self.bld.is_empty() {
+                    s.push('+');
+                    s.push_str(&self.bld.join("."));
+                }
+            }
+        }
+        s
+    }
+    fn json(&self) -> Value {
+        let raw = |l: &Vec<String>| l.iter().map(|x| bytes(x)).collect::<Vec<_>>();
+        json!({"v":self.v,"M":self.comps[0],"m":self.comps[1],"p":self.comps[2],"pre":raw(&self.pre),"bld":raw(&self.bld),"nohy":self.nohy})
+    }
+}
+
+fn small_component(r: &mut Rng, pool: &[u64]) -> u64 {
+    if r.chance(3, 4) {
+        *r.pick(pool)
+    } else {
+        component(r).min(MAX_SAFE_INTEGER)
+    }
+}
+
+/// a partial and its text; `pool` makes comparators of one text talk about neighbouring tuples
+fn partial_ast(r: &mut Rng, pool: &[u64], tag_pool: &[Vec<String>]) -> (PartialAst, String) {
+    let zeros = r.chance(1, 10);
+    let shape = r.below(20);
+    // number of written components and where wildcards sit
+    let ncomp = match shape {
+        0..=1 => 1,
+        2..=4 => 2,
+        _ => 3,
+    };
+    let mut comps: [Value; 3] = [json!({"t":"abs"}), json!({"t":"abs"}), json!({"t":"abs"})];
+    let mut texts: [String; 3] = [String::new(), String::new(), String::new()];
+    let mut nums = [None, None, None];
+    let mut wild = false;
+    for i in 0..ncomp {
+        let make_wild = if wild { r.chance(5, 6) } else { r.chance(1, 7) && (i > 0 || r.chance(1, 3)) };
+        if make_wild {
+            let c = *r.pick(&[b'x', b'X', b'*']);
+            comps[i] = json!({"t":"x","c":c as u64});
+            texts[i] = (c as char).to_string();
+            wild = true;
+        } else {
+            let n = small_component(r, pool);
+            let (j, t) = comp_json(r, n, zeros);
+            comps[i] = j;
+            texts[i] = t;
+            nums[i] = Some(n);
+        }
+    }
+    let mut pre = vec![];
+    let mut bld = vec![];
+    let mut nohy = false;
+    if ncomp == 3 && !wild {
+        if r.chance(2, 5) {
+            pre = if r.chance(1, 2) && !tag_pool.is_empty() {
+                r.pick(tag_pool).clone()
+            } else {
+                (0..1 + r.below(3)).map(|_| raw_ident(r)).collect()
+            };
+            if pre[0].as_bytes()[0].is_ascii_alphabetic() && r.chance(1, 6) {
+                nohy = true;
+            }
+        }
+        if r.chance(1, 8) {
+            bld = (0..1 + r.below(2)).map(|_| raw_ident(r)).collect();
+        }
+    } else if ncomp == 3 && wild && comps[2]["t"] == "x" && r.chance(1, 12) {
+        // `1.2.x-tag`: grammatical (xr qualifier), the tag is irrelevant
+        pre = vec![r.pick(ALNUM).to_string()];
+    }
+    let pa = PartialAst { v: r.chance(1, 8), comps, nums, pre, bld, nohy };
+    let text = pa.render(&texts);
+    (pa, text)
+}
+
+const GARBAGE: &[&str] = &["foo", "f", "oyo", "1.y", "~1.y", ">=a", "^b", "yf", "<f", "1.2.y"];
+const OPS: &[&str] = &["", "", "=", "<", "<=", ">", ">=", "~", "~>", "^", "^", "~"];
+
+fn neighbourhood(r: &mut Rng, partials: &[PartialAst], out: &mut Vec<Version>) {
+    let mut push = |v: Version| {
+        if out.len() < 90 && !out.iter().any(|w| w.major == v.major && w.minor == v.minor && w.patch == v.patch && w.pre_release == v.pre_release && w.build == v.build) {
+            out.push(v);
+        }
+    };
+    for pa in partials {
+        let m0 = match pa.nums[0] {
+            Some(x) => x,
+            None => continue,
+        };
+        let (m1, m2) = (pa.nums[1].unwrap_or(0), pa.nums[2].unwrap_or(0));
+        let tag: Vec<Identifier> = pa
+            .pre
+            .iter()
+            .map(|s| s.parse::<u64>().map(Identifier::Numeric).unwrap_or_else(|_| Identifier::AlphaNumeric(s.clone())))
+            .collect();
+        let mut tuples = vec![(m0, m1, m2), (m0, m1, m2 + 1), (m0, m1 + 1, 0), (m0 + 1, 0, 0)];
+        if m2 > 0 {
+            tuples.push((m0, m1, m2 - 1));
+        }
+        if m1 > 0 {
+            tuples.push((m0, m1 - 1, MAX_SAFE_INTEGER.min(m2 + 7)));
+        }
+        if m0 > 0 {
+            tuples.push((m0 - 1, 3, 3));
+        }
+        for (a, b, c) in tuples {
+            if a > MAX_SAFE_INTEGER || b > MAX_SAFE_INTEGER || c > MAX_SAFE_INTEGER {
+                continue;
+            }
+            let base = Version::from((a, b, c));
+            push(base.clone());
+            let mut v0 = base.clone();
+            v0.pre_release = vec![Identifier::Numeric(0)];
+            push(v0);
+            if !tag.is_empty() {
+                let mut t1 = base.clone();
+                t1.pre_release = tag.clone();
+                push(t1.clone());
+                let mut t2 = t1.clone();
+                t2.pre_release.push(Identifier::Numeric(0));
+                push(t2);
+                if r.chance(1, 3) {
+                    let mut t3 = t1.clone();
+                    t3.build = vec![Identifier::AlphaNumeric("b".into()), Identifier::Numeric(7)];
+                    push(t3);
+                }
+            }
+            let mut ta = base.clone();
+            ta.pre_release = vec![Identifier::AlphaNumeric(r.pick(&["a", "zz", "A", "rc"]).to_string())];
+            push(ta);
+        }
+    }
+}
+
+/// one alternative: (json, text, partials, is_hyphen, has_valid)
+fn alt_ast(r: &mut Rng, pool: &[u64], tag_pool: &[Vec<String>], allow_hyphen: bool, parts: &mut Vec<PartialAst>) -> (Value, String, bool) {
+    if allow_hyphen && r.chance(1, 6) {
+        let (lo, lt) = partial_ast(r, pool, tag_pool);
+        let (hi, ht) = partial_ast(r, pool, tag_pool);
+        let text = format!("{} - {}", lt, ht);
+        let j = json!({"cs":[{"op":"hyphen","lo":lo.json(),"hi":hi.json()}],"seps":[]});
+        parts.push(lo);
+        parts.push(hi);
+        return (j, text, true);
+    }
+    let n = match r.below(10) {
+        0..=3 => 1,
+        4..=7 => 2,
+        8 => 3,
+        _ => 4,
+    };
+    let mut cs = Vec::new();
+    let mut seps = Vec::new();
+    let mut text = String::new();
+    for i in 0..n {
+        if i > 0 {
+            let sep = match r.below(8) {
+                0 => "  ",
+                1 => "   ",
+                2 => "\t",
+                _ => " ",
+            };
+            seps.push(bytes(sep));
+            text.push_str(sep);
+        }
+        if r.chance(1, 9) {
+            let g = *r.pick(GARBAGE);
+            cs.push(json!({"op":"garbage","txt":bytes(g)}));
+            text.push_str(g);
+        } else {
+            let op = *r.pick(OPS);
+            let sp = if op.is_empty() {
+                ""
+            } else {
+                match r.below(10) {
+                    0 => " ",
+                    1 => "  ",
+                    2 => "\t",
+                    _ => "",
+                }
+            };
+            let (pa, pt) = partial_ast(r, pool, tag_pool);
+            cs.push(json!({"op":op,"sp":bytes(sp),"pa":pa.json()}));
+            text.push_str(op);
+            text.push_str(sp);
+            text.push_str(&pt);
+            parts.push(pa);
+        }
+    }
+    (json!({"cs":cs,"seps":seps}), text, false)
+}
+
+pub fn range_ast(r: &mut Rng, max_alts: u64, allow_hyphen: bool) -> (Value, String, Vec<Version>) {
+    // a small pool of numbers so that comparators of one text interact
+    let base = component(r).min(MAX_SAFE_INTEGER - 3);
+    let pool = [base, base + 1, base + 2, 0, 1];
+    let tag_pool: Vec<Vec<String>> = (0..2).map(|_| (0..1 + r.below(2)).map(|_| raw_ident(r)).collect()).collect();
+    let nalts = 1 + r.below(max_alts);
+    let mut alts = Vec::new();
+    let mut ors = Vec::new();
+    let mut text = String::new();
+    let mut parts = Vec::new();
+    for i in 0..nalts {
+        if i > 0 {
+            let l = *r.pick(&["", "", " ", "  "]);
+            let rr = *r.pick(&["", "", " ", "  "]);
+            ors.push(json!({"l":bytes(l),"r":bytes(rr)}));
+            text.push_str(l);
+            text.push_str("||");
+            text.push_str(rr);
+        }
+        let (j, t, _) = alt_ast(r, &pool, &tag_pool, allow_hyphen, &mut parts);
+        alts.push(j);
+        text.push_str(&t);
+    }
+    let mut vs = Vec::new();
+    neighbourhood(r, &parts, &mut vs);
+    (json!({"alts":alts,"ors":ors}), text, vs)
+}
+
+fn rconcat<W: Write>(r: &mut Rng, n: usize, out: &mut W) -> usize {
+    for _ in 0..n {
+        let base = component(r).min(MAX_SAFE_INTEGER - 3);
+        let pool = [base, base + 1, base + 2, 0, 1];
+        let tag_pool: Vec<Vec<String>> = (0..2).map(|_| (0..1 + r.below(2)).map(|_| raw_ident(r)).collect()).collect();
+        let mut parts = Vec::new();
+        let and = r.chance(3, 5);
+        let (ta, tb) = if and {
+            let (_, ta, _) = alt_ast(r, &pool, &tag_pool, false, &mut parts);
+            let (_, tb, _) = alt_ast(r, &pool, &tag_pool, false, &mut parts);
+            (ta, tb)
+        } else {
+            let mut mk = |r: &mut Rng, parts: &mut Vec<PartialAst>| {
+                let n = 1 + r.below(2);
+                let mut t = String::new();
+                for i in 0..n {
+                    if i > 0 {
+                        t.push_str("||");
+                    }
+                    let (_, x, _) = alt_ast(r, &pool, &tag_pool, true, parts);
+                    t.push_str(&x);
+                }
+                t
+            };
+            let a = mk(r, &mut parts);
+            let b = mk(r, &mut parts);
+            (a, b)
+        };
+        let mut vs = Vec::new();
+        neighbourhood(r, &parts, &mut vs);
+        writeln!(out, "{}", json!({"op":"concat","kind": if and {"and"} else {"or"},"a":bytes(&ta),"b":bytes(&tb),
+            "vs":vs.iter().map(ver_to_json).collect::<Vec<_>>()})).unwrap();
+    }
+    n
+}
+
+fn rtext<W: Write>(r: &mut Rng, n: usize, out: &mut W) -> usize {
+    for _ in 0..n {
+        let (ast, text, vs) = range_ast(r, 3, true);
+        writeln!(out, "{}", json!({"op":"rparse","dst":1,"text":bytes(&text),"ast":ast,
+            "vs":vs.iter().map(ver_to_json).collect::<Vec<_>>()})).unwrap();
+    }
+    n
+}
+
 pub fn generate<W: Write>(scenario: &str, seed: u64, n: usize, out: &mut W) -> usize {
     let mut h: u64 = 1469598103934665603;
     for b in scenario.bytes() {
@@ -473,6 +796,8 @@ pub fn generate<W: Write>(scenario: &str, seed: u64, n: usize, out: &mut W) -> u
         "vdiffs" => vdiffs(&mut r, n, out),
         "vtext" => vtext(&mut r, n, out),
         "vtuples" => vtuples(&mut r, n, out),
+        "rtext" => rtext(&mut r, n, out),
+        "rconcat" => rconcat(&mut r, n, out),
         _ => {
             eprintln!("unknown scenario {}", scenario);
             std::process::exit(2);
